@@ -22,7 +22,7 @@ spec format: {"items": [{"name": "delta", "file": "stable_baselines3/common/buff
 "find:TEXT" for the `occurrence`-th outermost arithmetic/comparison expression whose source contains TEXT, wherever it
 occurs: inside a subscript, a call argument, a tuple …).
 Optional per item: "type" (concrete Lean type of all leaves, e.g. "Nat"/"Int"; default: a type parameter α with
-"classes"), "result" (Lean result type, e.g. "Bool" for a condition), "inline" {leaf: lean term}, "calls" {python call text: lean function} (e.g. {"np.sqrt": "HasSqrt.sqrt"}),
+"classes"), "result" (Lean result type, e.g. "Bool" for a condition), "inline" {leaf: lean term}, "calls" {python call text: lean function} (e.g. {"np.sqrt": "HasSqrt.sqrt"}; a key that starts with a dot, {".exp": "f"}, maps the method call RECV.exp(args) on any receiver to (f RECV args) with RECV translated recursively),
 "leaves" (the expected leaf names; a different set means the code was restructured -> status unavailable; with
 "leaves_mode": "subset" only a NEW leaf means restructured, a leaf that disappeared is left to the tie lemma: the
 def keeps all expected leaves as parameters). Leaves that are Lean keywords are written «kw».
@@ -112,6 +112,10 @@ class Tr(ast.NodeVisitor):
             if fn in self.calls:
                 # per-item mapping of a library call to a Lean function, e.g. {"np.sqrt": "HasSqrt.sqrt"}
                 return "(" + " ".join([self.calls[fn]] + args) + ")" if args else self.calls[fn]
+            if isinstance(n.func, ast.Attribute) and ("." + n.func.attr) in self.calls:
+                # method call on an arbitrary receiver: `RECV.exp()` -> (f RECV) with the receiver translated
+                # recursively, for a mapping whose key starts with a dot, e.g. {".exp": "TScalar.exp"}
+                return "(" + " ".join([self.calls["." + n.func.attr], self.tr(n.func.value)] + args) + ")"
             if fn in ("max", "min", "np.maximum", "np.minimum") and len(args) == 2:
                 return f"({'max' if 'max' in fn else 'min'} {args[0]} {args[1]})"
             if fn in ("float", "int", "np.float32", "np.array", "np.asarray") and len(args) == 1:
